@@ -39,9 +39,9 @@ diff -r "$WORK/out" "$WORK/out2" > /dev/null && echo "second run: byte-identical
 coqc_() { (cd "$WORK/coq" && timeout 1800 coqc -Q theories Cqos -w -notation-overridden "theories/$1.v"); }
 
 echo "== compile the models, GoSem and every generated file"
-for f in Base Float64 Divider Sched RateConv Prio2 Utils GoSem; do coqc_ $f; done
+for f in Base Float64 Divider Sched RateConv Prio2 Prio2Sim Utils GoSem GoConc; do coqc_ $f; done
 cp "$WORK"/out/Gen*.v "$WORK/coq/theories/"
-for f in "$WORK"/out/Gen*.v; do
+for f in "$WORK"/out/Gen[!C]*.v "$WORK"/out/GenConc*.v; do    # part 1 first: GenConc*.v import it
   n=$(basename "$f" .v)
   /usr/bin/time -f "$n.v: %es" bash -c "cd '$WORK/coq' && timeout 1800 coqc -Q theories Cqos theories/$n.v"
   if grep -E '^(Axiom|Parameter|Admitted)|Admitted\.' "$f" > /dev/null; then echo "axiom in $n.v"; exit 1; fi
@@ -70,4 +70,8 @@ for v in V2Divider Rate V2Prio V1Divider V1Prio V2Utils V1Utils Extra; do
   coqc_ Cases$v
   /usr/bin/time -f "Val$v.v: %es" bash -c "cd '$WORK/coq' && timeout 3600 coqc -Q theories Cqos theories/Val$v.v"
 done
+echo "== part 2: the generated goroutine program against Prio2Sim on scripted environments"
+python3 "$HERE/validate/gen_conc_cases.py" "$WORK/coq/theories/CasesConcV2Prio.v"
+coqc_ CasesConcV2Prio
+/usr/bin/time -f "ValConcV2Prio.v: %es" bash -c "cd '$WORK/coq' && timeout 3600 coqc -Q theories Cqos theories/ValConcV2Prio.v"
 echo "== validation passed"
